@@ -135,6 +135,19 @@ Proof.
   crunch; try exact I; close_r.
 Qed.
 
+Lemma jwt_bearer_client_nosave w cr : sok (jwt_bearer_client w cr).
+Proof.
+  unfold jwt_bearer_client. apply saves_ok_r_bind; [apply authenticated_nosave|]. intros [c|]; [exact I|].
+  destruct (_ && _)%bool; exact I.
+Qed.
+Lemma jwt_bearer_grant_saves w n now r : sok (jwt_bearer_grant w n now r).
+Proof.
+  unfold jwt_bearer_grant.
+  destruct (negb (has_grant GJwtBearer (cf_grants (w_cfg w)))); [exact I|].
+  apply saves_ok_r_bind; [apply jwt_bearer_client_nosave|]. intros [c|]; [|exact I].
+  crunch; try exact I; close_r.
+Qed.
+
 Lemma ciba_grant_saves w n now r : sok (ciba_grant w n now r).
 Proof.
   unfold ciba_grant.
@@ -248,7 +261,7 @@ Proof.
   - apply continue_auth_saves.
   - apply push_auth_saves.
   - destruct g; try exact I; (apply saves_ok_r_bind; [|intros; exact I]).
-    + apply cc_grant_saves. + apply code_grant_saves. + apply refresh_grant_saves. + apply ciba_grant_saves.
+    + apply cc_grant_saves. + apply code_grant_saves. + apply refresh_grant_saves. + apply jwt_bearer_grant_saves. + apply ciba_grant_saves.
   - apply introspect_saves.
   - apply revoke_saves.
   - apply userinfo_saves.
@@ -353,6 +366,26 @@ Proof.
   all: cbn; match goal with H : cf_resource_enabled _ = _ |- _ => rewrite ?H end; reflexivity.
 Qed.
 
+(* jwt-bearer: like client_credentials there is no resource owner behind the request - the requested
+   resources are among the server's configured ones, and granted = active = requested *)
+Lemma jwt_bearer_grant_resources w n now r st :
+  is_tokens (snd (run_seq (jwt_bearer_grant w n now r) st)) = true ->
+  exists g,
+    validate_resources (w_cfg w) (cf_resources (w_cfg w)) (t_resources r) = true /\
+    st_gsess (fst (run_seq (jwt_bearer_grant w n now r) st)) = put_gsess g (st_gsess st) /\
+    g_granted_res g = (if cf_resource_enabled (w_cfg w) then t_resources r else []) /\
+    g_active_res g = g_granted_res g.
+Proof.
+  unfold jwt_bearer_grant. destruct (has_grant GJwtBearer (cf_grants (w_cfg w))) eqn:EG; [|cbn; discriminate]. cbn [negb].
+  rewrite run_jwt_bearer_client_k.
+  destruct (snd (run_seq (jwt_bearer_client w (t_cred r)) st)) as [c|] eqn:EA; [|cbn; discriminate].
+  unfold new_grant.
+  repeat (cbn; try discriminate; break_inner).
+  all: cbn; try discriminate.
+  all: intros _; eexists; repeat split; auto; try vr_true.
+  all: rewrite ?with_refresh_active_res, ?with_refresh_granted_res; cbn; reflexivity.
+Qed.
+
 (* readable forms *)
 Local Transparent validate_resources grant_active_res grant_granted_res subset.
 Lemma validate_resources_spec cfg avail req :
@@ -423,9 +456,16 @@ Theorem resources_decision_all w n now r st :
      g_active_res g = g_granted_res g /\
      (cf_resource_enabled (w_cfg w) = true ->
         (forall x, In x (t_resources r) -> In x (cf_resources (w_cfg w))) /\ g_granted_res g = t_resources r) /\
+     (cf_resource_enabled (w_cfg w) = false -> g_granted_res g = [])) /\
+  (is_tokens (snd (run_seq (jwt_bearer_grant w n now r) st)) = true ->
+   exists g,
+     st_gsess (fst (run_seq (jwt_bearer_grant w n now r) st)) = put_gsess g (st_gsess st) /\
+     g_active_res g = g_granted_res g /\
+     (cf_resource_enabled (w_cfg w) = true ->
+        (forall x, In x (t_resources r) -> In x (cf_resources (w_cfg w))) /\ g_granted_res g = t_resources r) /\
      (cf_resource_enabled (w_cfg w) = false -> g_granted_res g = [])).
 Proof.
-  split; [|split; [|split]].
+  split; [|split; [|split; [|split]]].
   - intros H. destruct (code_grant_resources w n now r st H) as (s & g & F & V & S & G & A).
     exists s, g. split; [exact F|]. split; [exact S|]. exact (session_rule _ _ _ _ V G A).
   - intros H. destruct (ciba_grant_resources w n now r st H) as (s & g & F & V & S & G & A).
@@ -437,6 +477,10 @@ Proof.
     + pose proof (proj1 (validate_resources_spec _ _ _) V) as V'. split; [auto|]. rewrite A, E. reflexivity.
     + rewrite A, E. reflexivity.
   - intros H. destruct (cc_grant_resources w n now r st H) as (g & V & S & G & A).
+    exists g. split; [exact S|]. split; [exact A|]. split; intros E.
+    + pose proof (proj1 (validate_resources_spec _ _ _) V) as V'. split; [auto|]. rewrite G, E. reflexivity.
+    + rewrite G, E. reflexivity.
+  - intros H. destruct (jwt_bearer_grant_resources w n now r st H) as (g & V & S & G & A).
     exists g. split; [exact S|]. split; [exact A|]. split; intros E.
     + pose proof (proj1 (validate_resources_spec _ _ _) V) as V'. split; [auto|]. rewrite G, E. reflexivity.
     + rewrite G, E. reflexivity.
@@ -469,8 +513,8 @@ Qed.
    refused, and introspection reports exactly the granted resource *)
 Definition ex_res_ops : list op :=
   let p := mkParams 0 "https://c/cb" "" "code" "openid" "s" "" PkEmpty "" 0 "" 0 "" ["https://a"; "https://b"] in
-  let tr code res := mkTReq (mkCred 1 true) no_bind "" code "https://c/cb" 0 PkEmpty 0 HgOk BaApprove res in
-  let rf rt res := mkTReq (mkCred 1 true) no_bind "" 0 "" rt PkEmpty 0 HgOk BaApprove res in
+  let tr code res := mkTReq (mkCred 1 true) no_bind "" code "https://c/cb" 0 PkEmpty 0 HgOk BaApprove res AsNone in
+  let rf rt res := mkTReq (mkCred 1 true) no_bind "" 0 "" rt PkEmpty 0 HgOk BaApprove res AsNone in
   [OpAuthorize (mkAReq 1 p true (PolSuccess "alice" "openid" ["https://a"]));
    OpToken GAuthorizationCode (tr (mint 0 KCode) ["https://b"]);
    OpAuthorize (mkAReq 1 p true (PolSuccess "alice" "openid" ["https://a"]));
